@@ -390,6 +390,7 @@ class Normaliser(object):
             self._fstrings_to_format()
             self._inline_new_constants()
             self._fold_delegates()
+            self._class_aliases_to_methods()
             self._tail_loop_returns()
             self._acquire_release_to_with()
             self._walrus_comprehensions_to_loops()
@@ -482,6 +483,24 @@ class Normaliser(object):
                             out.append(s_)
                     return out
                 fn.body = rewrite(fn.body)
+
+    def _class_aliases_to_methods(self):
+        """`name = staticmethod(f)` in a class body, f a function of the same module: the class has that static method (a copy of f's
+        definition stands where the alias stood)"""
+        for t in self.trees.values():
+            funcs = {s_.name: s_ for s_ in t.body if isinstance(s_, ast.FunctionDef)}
+            for c in [s_ for s_ in t.body if isinstance(s_, ast.ClassDef)]:
+                for i, s_ in enumerate(list(c.body)):
+                    if isinstance(s_, ast.Assign) and len(s_.targets) == 1 and isinstance(s_.targets[0], ast.Name) and isinstance(s_.value, ast.Call) and \
+                            isinstance(s_.value.func, ast.Name) and s_.value.func.id == 'staticmethod' and len(s_.value.args) == 1 and \
+                            isinstance(s_.value.args[0], ast.Name) and s_.value.args[0].id in funcs and not s_.value.keywords:
+                        f = copy.deepcopy(funcs[s_.value.args[0].id])
+                        if f.decorator_list:
+                            continue
+                        f.name = s_.targets[0].id
+                        f.decorator_list = [ast.Name(id='staticmethod', ctx=ast.Load())]
+                        c.body[c.body.index(s_)] = ast.copy_location(f, s_)
+                        self.inlined.append((f.name, c.name, 'class alias of a module function'))
 
     def _acquire_release_to_with(self):
         """`L.acquire(); try: B finally: L.release()` is `with L: B` (the context manager protocol of locks); a local that only names the
